@@ -23,7 +23,7 @@ type Prop struct{}
 func (Prop) ID() string    { return "C16" }
 func (Prop) Level() string { return "exploration" }
 func (Prop) Configs(tier string) []string {
-	return []string{"c-default", "c-purego"}
+	return []string{"c-default", "c-purego", "c-nopclmul", "c-noaes"}
 }
 
 func (Prop) SelfTest() error {
@@ -108,7 +108,7 @@ func (Prop) Assumptions() []string {
 		"with a trust store 'any part of the signer certificate' is compared as RawTBSCertificate + signatureAlgorithm + signatureValue; without as the parsed public key in canonical PKIX form (the X.509 parser ignores trailing elements inside the Certificate / SubjectPublicKeyInfo / AlgorithmIdentifier SEQUENCEs and ber2der re-derives constructed lengths from the children, so raw bytes may differ where nothing authenticated does)",
 		"a private key of ANOTHER intended recipient used with a recipient's certificate is not enumerated as 'non-recipient'",
 		"external digest alteration flips a bit of the first digest byte: ECDSA P-256 uses only the leftmost 256 bits of SHA-384/512 digests, a change in the truncated tail is not detectable by construction",
-		"dispatch tiers: c-default and c-purego on amd64 only",
+		"dispatch tiers: c-default, c-purego and (cases that execute SM primitives) c-nopclmul, c-noaes, on amd64 only",
 		"widen/cap: a write into the spare capacity BEHIND a content argument (PKCS#7 padding in place by the CBC/ECB content ciphers) is counted (content_spare_capacity_written), not judged; what is judged is a changed argument [0:len] of the same call — in particular the key of EncryptUsingPSK / EncryptSMUsingPSK lying directly behind the content in one array",
 		"widen/own: a content slice handed to NewSignedData / NewSignedAndEnvelopedData is NOT overwritten before the last signer was added (these constructors keep a reference, the signature is computed at AddSigner time); the content handed to New*EnvelopedData is overwritten right after the constructor returned; p7.Content of a parsed SignedData is a public field the verifier controls and is not treated as a returned slice; that two Parse calls on one buffer do not alias each other or the buffer is not required",
 		"widen/api: RecipientInfos and SignerInfos are SET OF (DER orders them by encoding): no oracle depends on their order; SetEncryptionAlgorithm is enumerated only with OIDs consistent with key family and digest; the SM2-with-SM3 digest OID only with keys typed *sm2.PrivateKey (an SM2 key typed *ecdsa.PrivateKey is refused by AddSigner with this OID: an error, not judged); the legacy C1C2C3 key encoding only with concrete *sm2.PrivateKey recipients (documented by the type switch); an SM2 recipient key typed *ecdsa.PrivateKey (no crypto.Decrypter) is not enumerated; what RemoveAuthenticatedAttributes leaves behind need not verify (the signature was computed over the attributes): only 'never for another content' is required; what a failing AddSigner leaves in digestAlgorithms is not judged",
@@ -154,7 +154,9 @@ func (Prop) Run(c *engine.Ctx) {
 	// The purego tag changes only the gmsm primitives (SM2/SM3/SM4); RSA, ECDSA, SHA-x, AES and DES come from the
 	// standard library in both builds and the ASN.1 layer is plain Go. In the quick tier the purego workers
 	// therefore run the cases that execute SM primitives; the thorough tier runs everything in both builds.
-	smOnly := quick && c.Config == "c-purego"
+	// c-nopclmul / c-noaes: the SM4 content ciphers (CBC, GCM, ECB) run other code there (table-driven GHASH over the
+	// asm block, Go SM4); only the cases that execute SM primitives, in both tiers
+	smOnly := quick && c.Config == "c-purego" || c.Config == "c-nopclmul" || c.Config == "c-noaes"
 
 	runBerBoundaries(c)
 	runMixedSigners(c, getPKI)
